@@ -148,11 +148,42 @@ class proceed:
     def __enter__(self):
         self.curr = HandlerCollection.current.get() or HandlerCollection([])
         self.interactor, new = self.curr.proceed(self.fn)
+        self.interactor.context = self
         self.reset = HandlerCollection.current.set(new)
+        # Only used by generators, see suspend/resume
+        self.suspended = False
+        self.was_suspended = False
         return self.interactor
 
+    def suspend(self):
+        """The function is a generator and is about to yield.
+
+        Its caller resumes in the same context: give it back the handlers
+        that were current when the generator was entered or last resumed.
+        """
+        if not self.was_suspended:
+            self.was_suspended = True
+            self.outer = self.reset.old_value
+            if self.outer is self.reset.MISSING:
+                self.outer = None
+        self.inner = HandlerCollection.current.get()
+        HandlerCollection.current.set(self.outer)
+        self.suspended = True
+
+    def resume(self):
+        """The generator is resumed: whatever is current now belongs to the
+        caller, and the generator's own handlers are current again."""
+        self.outer = HandlerCollection.current.get()
+        HandlerCollection.current.set(self.inner)
+        self.suspended = False
+
     def __exit__(self, typ, exc, tb):
-        HandlerCollection.current.reset(self.reset)
+        if not self.was_suspended:
+            HandlerCollection.current.reset(self.reset)
+        elif not self.suspended:
+            HandlerCollection.current.set(self.outer)
+        # else: the generator is being closed or thrown into while suspended,
+        # the caller's handlers are already the current ones
         self.interactor.exit()
 
 
